@@ -271,6 +271,10 @@ pub struct Script {
     pub faults: Vec<(usize, Fault)>,
     /// Does the driver implement `write_input` itself?
     pub override_write: bool,
+    /// Does the driver rebuild the storage of the `Signal`s it hands out on every call (a
+    /// buffer that is cleared and refilled in answer order) instead of pointing into a fixed list?
+    #[serde(default)]
+    pub rebuild_signals: bool,
 }
 
 #[derive(Clone, Debug, PartialEq, Eq, Hash, Serialize, Deserialize)]
